@@ -42,19 +42,16 @@ SWAP_POINTS = [0, 1, 2, 3, 5, 8, 13]
 
 
 def gen_cases(rng, tier):
-    out = []
+    """entries of the fixed C02 pool on which all engines agree (a C-backend bug that C02 records would make
+    ANY swap visible; here only the swap itself is under test); the check seed selects the subset"""
+    from . import c02
+    pool = [c for c in c02.pool_cases() if c[4] == "ok"]
     n = 14 if tier == "quick" else 150
-    cyc = 14 if tier == "quick" else 30
-    shapes = list(G.SHAPES.items())
-    for i in range(n):
-        if i % 3 == 2:
-            name, f = shapes[(i // 3) % len(shapes)]
-            m = f(rng)
-            tag = "shape:%s:%d" % (name, i)
-        else:
-            m = G.gen_program(rng, wide=(rng.random() < 0.6))
-            tag = "gen:%d" % i
-        out.append((m, G.gen_stimulus(rng, m, cyc, p_reset=0.1), tag))
+    pick = rng.sample(pool, min(n, len(pool)))
+    out = []
+    for (m, st, tag, _, _) in pick:
+        st2 = [((r or rng.random() < 0.08) and i > 0, v) for i, (r, v) in enumerate(st)]     # extra mid-run resets
+        out.append((m, st2, tag))
     return out
 
 
@@ -133,8 +130,8 @@ def run(tier, seed, replay):
     proved = C.prove(res, PID)
     cc = C.sh(["cc", "--version"])[0] == 0
     res.obligation("a C compiler is available (cc --version)", cc)
-    ok, binary, log = C.harness_build("vh-sim", features="swap_hook")
-    res.obligation("harness build vh-sim (feature swap_hook) from the working tree", ok, log[-400:])
+    ok, binary, log = C.harness_build("vh-sim")
+    res.obligation("harness build vh-sim (with the verif_swap hook) from the working tree", ok, log[-400:])
     if not ok or not cc:
         res.violation("harness-build", "the simulator harness with the swap hook no longer builds (or cc is missing): " + log[-300:],
                       {"log": log[-2000:]}, no_input=True)
@@ -236,16 +233,20 @@ def run(tier, seed, replay):
             continue
         m, stim, tag = cases[i]
 
-        def pred(m2, st2, k=k):
+        def pred_batch(cands, k=k):
             try:
-                s2, j2, r2 = full([(m2, st2, "shrink")])
+                s2, j2, r2 = full([(a, b, "shrink") for a, b in cands])
             except Exception:
-                return False
-            if any(v[0] == "ERR" for v in s2[0].values()):
-                return False
-            return any(k2 == k for k2, _, _ in judge(m2, s2[0], j2[0], r2[0]))
+                return [False] * len(cands)
+            out = []
+            for ci, (a, b) in enumerate(cands):
+                if any(v[0] == "ERR" for v in s2[ci].values()):
+                    out.append(False)
+                    continue
+                out.append(any(k2 == k for k2, _, _ in judge(a, s2[ci], j2[ci], r2[ci])))
+            return out
         try:
-            m2, st2 = S.shrink(m, stim, pred, budget=30 if tier == "quick" else 120)
+            m2, st2 = S.shrink_batch(m, stim, pred_batch, rounds=5 if tier == "quick" else 14)
         except Exception:
             m2, st2 = m, stim
         rep = {"module": G.module_to_json(m2), "stim": G.stim_to_json(st2), "veryl": G.to_veryl(m2)[:20000], "origin": tag, "detail": d}
